@@ -58,7 +58,68 @@ def call(A, algname, n, fn):
     raise ValueError(algname)
 
 
+def big_operator(kind, n, scale, seed):
+    """operators whose determinant leaves the double range (|log|det|| > 745) although every entry is moderate"""
+    from cola import ops
+    from mc import payload as P
+    g = P.rng(seed, "c07big", kind, n)
+    if kind == "Dense":
+        M = (P.ints(g, (n, n), -1, 1) + (n // 8 + 2) * np.diag(np.where(g.integers(0, 2, size=n) == 1, 1.0, -1.0))) * scale
+        return ops.Dense(M), M
+    if kind == "DenseC":
+        M = (P.ints(g, (n, n), -1, 1, cplx=True) + (n // 8 + 2) * np.diag(np.exp(1j * g.uniform(0, 6.28, size=n)))) * scale
+        return ops.Dense(M), M
+    if kind == "PSD":
+        B = P.ints(g, (n, n), -1, 1) / np.sqrt(n)
+        M = (B @ B.T + np.eye(n)) * scale
+        return cola.PSD(ops.Dense(M)), M
+    if kind == "Triangular":
+        M = np.tril(P.ints(g, (n, n), -1, 1) + 3 * np.diag(np.where(g.integers(0, 2, size=n) == 1, 1.0, -1.0))) * scale
+        return ops.Triangular(M, lower=True), M
+    if kind == "Diagonal":
+        d = P.ints(g, (n, ), 1, 3) * np.where(g.integers(0, 2, size=n) == 1, 1.0, -1.0) * scale
+        return ops.Diagonal(d), np.diag(d)
+    if kind == "ScalarMul":
+        return ops.ScalarMul(-scale, (n, n), dtype=np.float64), -scale * np.eye(n)
+    if kind == "Product":
+        A, MA = big_operator("Dense", n, scale, seed)
+        B, MB = big_operator("Triangular", n, 1.0, seed + 1)
+        return A @ B, MA @ MB
+    if kind == "Kronecker":
+        A, MA = big_operator("Dense", n // 20, scale, seed)
+        B, MB = big_operator("Diagonal", 20, 1.0, seed + 1)
+        return ops.Kronecker(A, B), np.kron(MA, MB)
+    if kind == "BlockDiag":
+        A, MA = big_operator("Dense", n // 20, scale, seed)
+        from scipy.linalg import block_diag
+        return ops.BlockDiag(A, multiplicities=[20]), block_diag(*([MA] * 20))
+    raise ValueError(kind)
+
+
+def run_big(case, seed):
+    _, kind, n, scale, algname = case
+    vio = []
+    with warnings.catch_warnings():
+        warnings.simplefilter("ignore")
+        A, M = big_operator(kind, n, scale, seed)
+        sgn_ref, lad_ref = np.linalg.slogdet(M)
+        try:
+            s, ld = call(A, algname, n, "slogdet")
+            s_c, ld_c = complex(np.asarray(s).reshape(-1)[0] if np.ndim(s) else s), complex(np.asarray(ld).reshape(-1)[0] if np.ndim(ld) else ld)
+            ok = np.isfinite(s_c) and np.isfinite(ld_c) and abs(abs(s_c) - 1) < 1e-9 and abs(s_c - complex(sgn_ref)) < 1e-7 \
+                and abs(ld_c - lad_ref) < 1e-9 * max(1.0, abs(lad_ref))
+            if not ok:
+                vio.append({"key": f"C07|extreme-determinant|value|{algname}|{kind}", "what": f"slogdet wrong for a determinant outside the double range "
+                            f"({kind}, n={n}, log|det|={lad_ref:.1f})", "detail": {"sign": s_c, "logabs": ld_c, "want_sign": complex(sgn_ref), "want_logabs": float(lad_ref)}})
+        except Exception as e:
+            if not (isinstance(e, AssertionError) and algname == "Cholesky" and kind != "PSD"):
+                vio.append({"key": f"C07|extreme-determinant|exc:{type(e).__name__}|{algname}|{kind}", "what": f"slogdet raised ({kind}, n={n})", "detail": {"msg": str(e)[:300]}})
+    return {"transitions": 3, "outcome": f"big:{kind}:{algname}:{round(float(lad_ref))}", "violations": vio}
+
+
 def run_case(case, seed):
+    if case[0] == "BIG":
+        return run_big(case, seed)
     term, algname = case
     R = ref(term, seed)
     M = R.mat
@@ -149,6 +210,11 @@ def cases(tier, seed):
             if a == "Arnoldi" and tier == "quick" and size(t) > 0 and t[0] not in ("kron", "matmul", "BlockDiag", "Kronecker"):
                 continue
             out.append([t, a])
+    # determinants far outside the double range (both tiny and huge): sizes 240-400, entries ~ 1/200 or ~ 200
+    for kind in ("Dense", "DenseC", "PSD", "Triangular", "Diagonal", "ScalarMul", "Product", "Kronecker", "BlockDiag"):
+        for n, scale in ((400, 1.0 / 256), (400, 256.0)) + (((240, 1.0 / 4096), ) if tier == "thorough" else ()):
+            for a in ("omitted", "Auto", "LU") + (("Cholesky", ) if kind == "PSD" else ()):
+                out.append(["BIG", kind, n, scale, a])
     info["states"] = len(out)
     _DESC.update(info)
     return out
@@ -160,7 +226,7 @@ def case_signature(case):
 
 def describe(tier, seed):
     return {
-        "bound": "the invertible term family of C06 (40 leaves incl. |det|<1 and >1, both signs / four phases, permutations of both parities, "
+        "bound": "9 operator kinds of size 240-400 whose determinant lies outside the double range (|log|det|| > 745); the invertible term family of C06 (40 leaves incl. |det|<1 and >1, both signs / four phases, permutations of both parities, "
                  "scalar operators of sizes 1..4; all depth-1 nestings" + ("; capped depth-2" if tier == "thorough" else "")
                  + ") x (log_alg, trace_alg) in {omitted, (Auto, Auto), (LU, Auto), (Cholesky, Auto)*, (Lanczos, Exact)*, (Arnoldi, Exact)} (* PSD only)",
         "alphabet": _DESC,
